@@ -117,7 +117,8 @@ func (s *lbSys) entry(tag string) tla.Value { return s.entryShape(tag, verifChoo
 // single labels from arbitrary states: every mailbox holds <= BUFFER_SIZE arbitrary entries
 func HarnessLB_Step() {
 	verifUnwind(1000000, false)
-	nsrv, ncli := 2, 2
+	// (instance sizes are pairwise different so that a constant used in place of another one shows)
+	nsrv, ncli := 2, 3
 	buffer := 1 + verifChoose("buffer", 2)
 	s := lbNew(nsrv, ncli, buffer)
 	st := s.ec.specSuccessorsOf("Init")[0]
